@@ -244,7 +244,20 @@ func genLocalsRule(r *rng, g *egen, k int) *RBlock {
 	asg := func(t string, e *RE) *RS { return &RS{Op: "assign", Sym: "=", Tgt: v(t), E: e} }
 	name := localNames[r.intn(len(localNames))]
 	b := &RBlock{}
-	switch r.intn(7) {
+	switch r.intn(10) {
+	case 7:
+		// assigns a local, then faults outside any assignment or call (non-boolean condition: a panic
+		// recovered at the rule's entry point); the next execution must still start from undefined locals
+		b.Stmts = append(b.Stmts, asg(name, lit("int64", strconv.Itoa(30+k))),
+			&RS{Op: "if", E: v(name), Body: &RBlock{Stmts: []*RS{asg(name, lit("int64", "0"))}}})
+		b.HasRet, b.Ret = true, v(name)
+	case 8:
+		// the only local is a forRange key; no assignment anywhere in the rule
+		b.Stmts = append(b.Stmts, &RS{Op: "forRange", Sym: "ix", Coll: "A", Body: &RBlock{Stmts: []*RS{
+			{Op: "call", E: &RE{Op: "call", Kind: "func", Sym: "obs", Args: []*RE{v("ix")}}}}}})
+	case 9:
+		// no assignment at all: reads a name only another rule's forRange / assignment defined
+		b.Stmts = append(b.Stmts, &RS{Op: "call", E: &RE{Op: "call", Kind: "func", Sym: "obs", Args: []*RE{v([]string{"ix", name}[r.intn(2)])}}})
 	case 5:
 		// a local holding a pointer to an injected struct reads and writes through it
 		fld := []string{"I64", "I32", "U16", "F64"}[r.intn(4)]
